@@ -372,6 +372,120 @@ def parse_amount_real():
     return Q()
 
 
+ROW_FILES = {
+    'plain': 'Date,Description,Amount\n01/02/2024,COFFEE,4.50\n01/03/2024,TEA,3.00\n',
+    'quoted-header-newline': 'Date,"Description\n",Amount\n01/02/2024,COFFEE,4.50\n01/03/2024,TEA,3.00\n01/04/2024,MILK,2.00\n',
+    'quoted-cells': 'Date,Description,Amount\n01/02/2024,"COFFEE, LARGE","1,234.50"\n01/03/2024,"SAY ""HI""",3.00\n',
+    'embedded-newline-cell': 'Date,Description,Amount\n01/02/2024,"TWO\nLINES",4.50\n01/03/2024,TEA,3.00\n',
+    'blank-lines-short-rows': 'Date,Description,Amount\n\n01/02/2024,COFFEE\n01/03/2024,TEA,3.00,EXTRA\n,,\n01/05/2024,OK,1.00\n',
+    'crlf': 'Date,Description,Amount\r\n01/02/2024,COFFEE,4.50\r\n01/03/2024,TEA,3.00\r\n',
+}
+
+
+def real_reader(name, delim):
+    """_iter_rows_with_delimiter / parse_generic_csv on a REAL file (the csv module is a C boundary: quoting and embedded
+    newlines cannot be symbolic).  Oracle: Python's csv module reading the whole file, header record dropped."""
+    class Q:
+        def query(self):
+            ok, why = self._run()
+            r = {'solver_queries': 0, 'solver_time_s': 0.0, 'paths': 1, 'extra': {'decided_by': 'direct run on a real file (csv quoting is a C boundary)'}}
+            r.update({'status': 'CONFIRMED', 'message': why} if ok else {'status': 'REFUTED', 'args': {}, 'message': why})
+            return r
+
+        def _run(self):
+            import csv
+            import io
+            import os
+            import sys
+            import tempfile
+            sys.path.insert(0, REPO_SRC)
+            from tally import parsers
+            from tally.format_parser import parse_format_string
+            text = ROW_FILES[name]
+            sep = {None: ',', 'tab': '\t', ';': ';'}[delim]
+            if delim:
+                # re-render the same records with the other delimiter
+                recs = list(csv.reader(io.StringIO(text, newline='')))
+                buf = io.StringIO(newline='')
+                w = csv.writer(buf, delimiter=sep, lineterminator='\r\n' if name == 'crlf' else '\n')
+                for rec in recs:
+                    w.writerow(rec)
+                text = buf.getvalue()
+            d = tempfile.mkdtemp(prefix='verif_c05_')
+            p = os.path.join(d, 'f.csv')
+            with open(p, 'w', newline='') as f:
+                f.write(text)
+            for has_header in (True, False):
+                with open(p, 'r', encoding='utf-8') as f:
+                    exp = list(csv.reader(f, delimiter=sep))
+                if has_header:
+                    exp = exp[1:]
+                got = list(parsers._iter_rows_with_delimiter(p, delim, has_header))
+                if got != exp:
+                    return False, 'rows differ from the csv module (has_header=%s): %r vs %r' % (has_header, got[:4], exp[:4])
+            spec = parse_format_string('{date:%m/%d/%Y}, {description}, {amount}')
+            spec.delimiter = delim
+            txns = parsers.parse_generic_csv(p, spec, [], source_name='S')
+            with open(p, 'r', encoding='utf-8') as f:
+                rows = list(csv.reader(f, delimiter=sep))[1:]
+            want = []
+            for r in rows:
+                if len(r) >= 3 and r[0].strip() and r[1].strip() and r[2].strip():
+                    try:
+                        amt = float(r[2].replace(',', '').strip())
+                    except ValueError:
+                        continue
+                    if amt != 0:
+                        want.append((r[1].strip(), amt))
+            gotp = [(t['raw_description'], t['amount']) for t in txns]
+            if gotp != want:
+                return False, 'transactions differ: %r vs %r' % (gotp, want)
+            return True, 'rows and transactions as the csv module reads them'
+
+        def __call__(self, **kw):
+            return self._run()[0]
+    return Q()
+
+
+def two_sources_same_format():
+    """Two sources with the same format text and different overrides, resolved by the real resolve_source_format and parsed
+    one after the other: each is read with its own sign / header / delimiter settings."""
+    def ob(neg0: bool, neg1: bool, hdr0: bool, hdr1: bool, v: float) -> bool:
+        """
+        pre: 0.0 < v < 1000000.0
+        post: _
+        """
+        from tally import parsers
+        from tally.config_loader import resolve_source_format
+        reset_tally_caches()
+        fmt = '{date}, {description}, {amount}'
+        outs = []
+        specs = []
+        for i, (neg, hdr) in enumerate(((neg0, hdr0), (neg1, hdr1))):
+            src = {'name': f'S{i}', 'file': f's{i}.csv', 'format': fmt, 'has_header': bool(hdr)}
+            if neg:
+                src['negate_amount'] = True
+            if i == 1:
+                src['delimiter'] = ';'
+            specs.append(resolve_source_format(src)['_format_spec'])
+        for i, spec in enumerate(specs):
+            rows = [['HDR', 'HDR', 'HDR'], ['1/2', 'DESC', '5']]
+            log = []
+            saved = _install(rows, log, [True, True], [0, 0], [v, v])
+            try:
+                outs.append((parsers.parse_generic_csv(f's{i}.csv', spec, [], source_name=f'S{i}'), log))
+            finally:
+                _restore(saved)
+        ok = True
+        for i, (neg, hdr) in enumerate(((neg0, hdr0), (neg1, hdr1))):
+            txns, log = outs[i]
+            ok = ok and len(txns) == (1 if hdr else 2)
+            ok = ok and all(t['amount'] == (-v if neg else v) for t in txns)
+            ok = ok and [e[1] for e in log if e[0] == 'delimiter'] == [';' if i == 1 else ',']
+        return post(ok)
+    return ob
+
+
 def obligations(tier, seed):
     q = tier == 'quick'
     obs = []
@@ -390,6 +504,12 @@ def obligations(tier, seed):
                                   bounds=f'layout {LAYOUTS[layout][0]!r}, delimiter {delim!r}, {nrows} data row(s): {what[focus]}; other inputs fixed'))
     obs.append(Obligation(id='parse-amount-text', factory='parse_amount_text', params={'blen': 2 if q else 3}, reals=True, timeout=to, group='amount text normalisation',
                           bounds='amount cell = optional ( , optional $ , body <= %d chars over 1 9 , . blank, optional ) ; both decimal conventions; float() stubbed' % (2 if q else 3)))
+    obs.append(Obligation(id='two-sources-same-format', factory='two_sources_same_format', reals=True, timeout=to, group='reads are independent',
+                          bounds='two sources with identical format text; symbolic negate / header overrides, the second with delimiter ";"; float stub value symbolic'))
+    for name in ROW_FILES:
+        for delim in ([None, ';'] if q else [None, ';', 'tab']):
+            obs.append(Obligation(id=f'real-reader-{name}-{delim}', factory='real_reader', params={'name': name, 'delim': delim}, engine='smt', twin=False, timeout=60,
+                                  group='real csv files (direct runs)', bounds=f'file {name!r}, delimiter {delim!r}, with and without header'))
     obs.append(Obligation(id='two-reads', factory='two_reads_independent', reals=True, timeout=to, group='reads are independent',
                           bounds='the same amount text (<= 3 chars over 1 9 , .) read with "." then with ","; float stub returns two different symbolic values'))
     obs.append(Obligation(id='parse-amount-real-float', factory='parse_amount_real', engine='smt', twin=False, timeout=60, group='finite amounts',
